@@ -128,8 +128,8 @@ theorem instantiate_ok_iff (now : Nat) (m : InstMsg) (c : Coll) :
       m.funds = 0 ∧ m.senderIsContract = true ∧ addrValid m.minter = true ∧ m.descLen ≤ MAX_DESCRIPTION_LENGTH ∧
       urlValid m.image = true ∧ optUrlValid m.link = true ∧
       (∀ r, m.royalty = some r → addrValid r.addr = true ∧ r.share ≤ DEC_ONE) ∧ addrValid m.creator = true ∧
-      c = { creator := m.creator, descLen := m.descLen, image := m.image, link := m.link, explicit := m.explicit,
-            startTrading := m.startTrading, royalty := m.royalty, frozen := false, updatedAt := now } := by
+      c = { kind := m.kind, name := m.kind, ver := curVer m.kind, creator := m.creator, descLen := m.descLen, image := m.image, link := m.link,
+            explicit := m.explicit, startTrading := m.startTrading, royalty := m.royalty, frozen := false, updatedAt := now } := by
   unfold instantiate
   by_cases h1 : m.funds = 0
   · by_cases h2 : m.senderIsContract = true
@@ -161,5 +161,98 @@ theorem instantiate_ok_iff (now : Nat) (m : InstMsg) (c : Coll) :
       · simp [h1, h2, h3]
     · simp [h1, h2]
   · simp [h1]
+
+end LP.Royalty
+
+namespace LP.Royalty
+set_option linter.unusedSimpArgs false
+
+/-- a migration the chain accepted: what the model lets it touch. Royalty, creator, frozen flag and the other collection
+fields never; the cadence anchor only when it rewinds. -/
+theorem migrate_ok (c : Coll) (now : Nat) (target : Kind) (c' : Coll) (h : migrate c now target = .ok c') :
+    c'.royalty = c.royalty ∧ c'.frozen = c.frozen ∧ c'.creator = c.creator ∧
+    c'.descLen = c.descLen ∧ c'.image = c.image ∧ c'.link = c.link ∧
+    c'.updatedAt = (if rewinds c target then now - DAY_NS else c.updatedAt) ∧
+    ((target = .updatable ∧ c'.name = .updatable ∧ c'.ver = curVer .updatable) ∨
+     (target ≠ .updatable ∧ ((c'.name = c.name ∧ c'.ver = c.ver) ∨ c'.name = .onchain))) := by
+  unfold migrate at h
+  unfold rewinds
+  cases target with
+  | updatable =>
+    simp only at h
+    split at h
+    · rename_i hn
+      cases h
+      cases hv : verLt c.ver V310 <;> simp [hn, hv]
+    · cases h
+  | onchain =>
+    simp only at h
+    split at h <;> (cases h; simp)
+  | nt =>
+    simp only at h
+    split at h
+    · cases h; simp
+    · cases h
+  | base => cases h
+
+theorem rewinds_iff (c : Coll) (target : Kind) :
+    rewinds c target = true ↔ target = .updatable ∧ (c.name = .base ∨ c.name = .updatable) ∧ verLt c.ver V310 = true := by
+  unfold rewinds
+  cases target <;> cases hk : c.name <;> simp [hk]
+
+/-- what a successful `UpdateCollectionInfo` can and cannot touch -/
+theorem update_untouched (c : Coll) (now : Nat) (sender : Addr) (m : UpdMsg) (c' : Coll)
+    (h : updateCollectionInfo c now sender m = .ok c') :
+    c'.name = c.name ∧ c'.ver = c.ver ∧ c'.frozen = c.frozen ∧ c'.startTrading = c.startTrading := by
+  rw [update_ok_iff] at h
+  obtain ⟨_, h2⟩ := h
+  cases hm : m.royalty with
+  | set r =>
+    rw [hm] at h2; simp only at h2
+    rw [applyRoyalty_ok_iff] at h2
+    rw [h2.2.2.2.2]; exact ⟨rfl, rfl, rfl, rfl⟩
+  | keep => rw [hm] at h2; simp only at h2; rw [h2]; exact ⟨rfl, rfl, rfl, rfl⟩
+  | clear => rw [hm] at h2; simp only at h2; rw [h2]; exact ⟨rfl, rfl, rfl, rfl⟩
+
+/-- **Shape of one successful step**: which message it was and what exactly it wrote. -/
+theorem step_shape (c : Coll) (op : Op) (c' : Coll) (h : step c op = .ok c') :
+    (∃ m, op.act = .update m ∧ updateCollectionInfo c op.now op.sender m = .ok c') ∨
+    (op.act = .freeze ∧ c.creator = op.sender ∧ c' = { c with frozen := true }) ∨
+    (∃ t, op.act = .startTrading t true ∧ c' = { c with startTrading := t }) ∨
+    (op.act = .other true ∧ c' = c) ∨
+    (∃ t, op.act = .migrate t true ∧ migrate c op.now t = .ok c') ∨
+    (∃ v, op.act = .setver v ∧ c' = { c with ver := v }) := by
+  unfold step at h
+  cases hact : op.act with
+  | update m => rw [hact] at h; exact Or.inl ⟨m, rfl, h⟩
+  | freeze =>
+    rw [hact] at h; simp only at h
+    split at h
+    · cases h
+    · rename_i hc
+      cases h
+      exact Or.inr (Or.inl ⟨rfl, by simpa using hc, rfl⟩)
+  | startTrading t ok =>
+    rw [hact] at h; simp only at h
+    split at h
+    · rename_i hok; cases h; subst hok
+      exact Or.inr (Or.inr (Or.inl ⟨t, rfl, rfl⟩))
+    · cases h
+  | other ok =>
+    rw [hact] at h; simp only at h
+    split at h
+    · rename_i hok; cases h; subst hok
+      exact Or.inr (Or.inr (Or.inr (Or.inl ⟨rfl, rfl⟩)))
+    · cases h
+  | migrate t ok =>
+    rw [hact] at h; simp only at h
+    split at h
+    · rename_i hok; subst hok
+      exact Or.inr (Or.inr (Or.inr (Or.inr (Or.inl ⟨t, rfl, h⟩))))
+    · cases h
+  | setver v =>
+    rw [hact] at h; simp only at h
+    cases h
+    exact Or.inr (Or.inr (Or.inr (Or.inr (Or.inr ⟨v, rfl, rfl⟩))))
 
 end LP.Royalty
